@@ -583,6 +583,88 @@ func c17PullStopInFlight(c *fw.Ctx, i int, how string) {
 	e.monitor()
 }
 
+// c17PullOvertaken: a pull attempt is overtaken by a publisher and ends without attaching; when the
+// publisher has left again (pulling still enabled, budget unlimited, a consumer present, nothing in
+// flight) the rule says a pull is attempted: bounded progress, 4 ticks + slack.
+func c17PullOvertaken(c *fw.Ctx, i int, static bool) {
+	e := c17Start(c, i, static, nil)
+	if e == nil {
+		return
+	}
+	defer e.stop()
+	e.desc = fmt.Sprintf("pull attempt overtaken by a publisher, publisher leaves again (static=%v)", static)
+	c.Describe("%s", e.desc)
+	c.Cell("pull/overtaken-then-free/static=%v", static)
+	hold := make(chan struct{})
+	e.script = []ref.StubBehaviour{{WithholdStatus: hold}}
+	x := e.sub()
+	defer e.unsub(x)
+	if !static {
+		if a := e.apiStart(-1, -1); !a.Ok {
+			c.Violate("pull-api/start-refused", "start_relay_pull on an idle stream answered failure\n"+e.trace(), nil)
+			return
+		}
+	}
+	if !srv.WaitFor(4*time.Second, func() bool {
+		for _, s := range e.attempts() {
+			if role, _, _ := s.GetRole(); role == "play" {
+				return true
+			}
+		}
+		return false
+	}) {
+		c.Inconclusive("the origin never saw the play request\n%s", e.trace())
+		return
+	}
+	from := e.s.Notify.Len()
+	p, err := ref.StartRtmpPublisher(e.s.RtmpAddr(), "live", e.name, 3*time.Second)
+	if err != nil {
+		c.Inconclusive("publisher: %v", err)
+		return
+	}
+	defer p.Close()
+	paddr := p.RC.Conn.LocalAddr().String()
+	if _, ok := e.s.Notify.WaitSessionFrom(3*time.Second, from, "pub_start", paddr); !ok {
+		c.Inconclusive("the publisher was not accepted while the pull attempt was in flight\n%s", e.trace())
+		return
+	}
+	e.logf("publisher accepted while the attempt is in flight")
+	time.Sleep(200 * time.Millisecond)
+	close(hold)
+	e.logf("origin answers the withheld play")
+	// the overtaken attempt ends: lal closes its origin connection
+	first := e.attempts()[0]
+	if !srv.WaitFor(4*time.Second, first.IsClosed) {
+		c.Inconclusive("the overtaken attempt's origin connection was not closed within 4 s\n%s", e.trace())
+		return
+	}
+	if e.attached() {
+		c.Violate("pull-attempt/input-present", "the pull attached although a publisher had been accepted while it was in flight\n"+e.trace(), nil)
+		return
+	}
+	time.Sleep(300 * time.Millisecond)
+	nBefore := len(e.attempts())
+	p.Close()
+	if _, ok := e.s.Notify.WaitSessionFrom(3*time.Second, from, "pub_stop", paddr); !ok {
+		c.Inconclusive("pub_stop not observed\n%s", e.trace())
+		return
+	}
+	e.logf("publisher left; consumer still present, pulling enabled, nothing in flight")
+	c.Eval(1)
+	if !e.waitAttempts(nBefore+1, 4*c17Tick+c17Slack) {
+		c.Violate("pull-progress/after-overtaken-attempt", fmt.Sprintf("no pull attempt within %v after the publisher left although pulling is enabled with an unlimited budget, a consumer is present, the stream has no input and no attempt is in flight\n%s", 4*c17Tick+c17Slack, e.trace()), nil)
+		return
+	}
+	if !srv.WaitFor(3*time.Second, e.attached) {
+		c.Violate("pull-progress/after-overtaken-attempt", "the new attempt reached a serving origin but the pull did not attach within 3 s\n"+e.trace(), nil)
+		return
+	}
+	if !static {
+		e.apiStop()
+	}
+	e.monitor()
+}
+
 func c17PullKick(c *fw.Ctx, i int, static bool) {
 	e := c17Start(c, i, static, nil)
 	if e == nil {
@@ -994,6 +1076,7 @@ func init() {
 		h := h
 		cat = append(cat, sc{"inflight-" + h, func(c *fw.Ctx, i int) { c17PullStopInFlight(c, i, h) }})
 	}
+	cat = append(cat, sc{"overtaken", func(c *fw.Ctx, i int) { c17PullOvertaken(c, i, false) }}, sc{"overtaken-static", func(c *fw.Ctx, i int) { c17PullOvertaken(c, i, true) }})
 	cat = append(cat, sc{"kick", func(c *fw.Ctx, i int) { c17PullKick(c, i, false) }}, sc{"kick-static", func(c *fw.Ctx, i int) { c17PullKick(c, i, true) }})
 	for _, p := range []struct {
 		ing          string
@@ -1014,7 +1097,7 @@ func init() {
 		},
 		Batches:     func(string) int { return 16 },
 		CaseTimeout: func(string) time.Duration { return 4 * time.Minute },
-		Rule: "whole-server runs with a scriptable RTMP origin and scriptable push targets in the harness that log every accepted connection. Monitor (every run): each origin connection must be permitted — pulling enabled (static, or a start_relay_pull since the last stop/kick), no publisher or pull attached during the whole preceding tick, no earlier connection still unanswered, attempt count ≤ pull_retry_num+1 since the governing start/stop, and for auto-stop ≥ 0 a consumer present within window+1 tick (for a window > 0 a start call within the window counts as start-up grace). Scripted: retry budgets 0/1/3/−1 against a refusing origin (exact attempt counts; after the budget is spent stop + start must be accepted and get a fresh budget; for −1 attach, media, stop reply = attached id, pull_stop ≤ 3 s); auto-stop −1/0/2000 ms and static pull (attach ≤ 4 s after a consumer joins, stop within [window−1 tick, window+2 ticks+1 s] after it leaves, never for −1); stop / second start / publisher while the attempt is held in flight by the origin; kick of an attached API and static pull. Seeded programs over {consumer join/leave, start(retry, auto-stop), stop, kick, publisher arrive/leave} with origin outcomes refuse / close after connect / die after n messages / serve, judged by the monitor. Push: RTMP and RTSP publishers × 1–3 targets × target refusing its first 0–3 connections × URL parameters of 0/10/300/5000/40000 bytes: one publish session per target within (refusals+2) ticks+2 s, never two at once, publish name byte-equal incl. parameters, media arrives, sessions closed ≤ 3 s after the publisher left and no connection afterwards; a target that accepts and never answers while the publisher leaves and returns three times: never two connections at once, none left 13 s after the last publisher. cell = scenario × parameters.",
+		Rule: "whole-server runs with a scriptable RTMP origin and scriptable push targets in the harness that log every accepted connection. Monitor (every run): each origin connection must be permitted — pulling enabled (static, or a start_relay_pull since the last stop/kick), no publisher or pull attached during the whole preceding tick, no earlier connection still unanswered, attempt count ≤ pull_retry_num+1 since the governing start/stop, and for auto-stop ≥ 0 a consumer present within window+1 tick (for a window > 0 a start call within the window counts as start-up grace). Scripted: retry budgets 0/1/3/−1 against a refusing origin (exact attempt counts; after the budget is spent stop + start must be accepted and get a fresh budget; for −1 attach, media, stop reply = attached id, pull_stop ≤ 3 s); auto-stop −1/0/2000 ms and static pull (attach ≤ 4 s after a consumer joins, stop within [window−1 tick, window+2 ticks+1 s] after it leaves, never for −1); stop / second start / publisher while the attempt is held in flight by the origin; an attempt overtaken by a publisher that then leaves again (API with unlimited budget, and static): next attempt ≤ 4 ticks+0.3 s, attaches; kick of an attached API and static pull. Seeded programs over {consumer join/leave, start(retry, auto-stop), stop, kick, publisher arrive/leave} with origin outcomes refuse / close after connect / die after n messages / serve, judged by the monitor. Push: RTMP and RTSP publishers × 1–3 targets × target refusing its first 0–3 connections × URL parameters of 0/10/300/5000/40000 bytes: one publish session per target within (refusals+2) ticks+2 s, never two at once, publish name byte-equal incl. parameters, media arrives, sessions closed ≤ 3 s after the publisher left and no connection afterwards; a target that accepts and never answers while the publisher leaves and returns three times: never two connections at once, none left 13 s after the last publisher. cell = scenario × parameters.",
 		Assumptions: []string{"a start_relay_pull that lal answers with an error still counts as enabling (lal stores the request and starts later); the property text does not say otherwise", "time bands are one tick (1 s) + 0.3 s wide on each side; nothing is judged inside them", "RTSP pull origins are not driven (no RTSP stub server)"},
 		MinCells: 8,
 		Run: func(c *fw.Ctx, i int) {
